@@ -91,3 +91,9 @@ claim("C09",
   "Every returned route must name a declared template, carry the request's method and the very operation object the document declares, and reproduce the request path when its (non-empty) parameters are substituted after the base path; a matching literal template that declares the method must win; when nothing matches the error must be a *routers.RouteError; every declared request must be routed except in the counted 'ambiguous' class.",
   "Trusted: the reference matcher (tplRegexp/refMatches), the request-form precondition (relative servers: server-side request; absolute servers: absolute URL). Two behaviours of the legacy router are open findings (empty binding, ignored slashes). Servers with port/scheme variables are not generated.",
   "DESIGN.md#c09")
+
+claim("C13",
+  "property-based testing with before/after invariants and a reference default injection: operations with defaults on query/header/cookie parameters and at seven body positions (plain, nested, object-valued, allOf, oneOf, anyOf, array items) x partial requests x SkipSettingDefaults x body-reading authentication callbacks x server-style / client-style bodies; after each ValidateRequest the request is re-read, re-decoded, re-validated and validated a second time, and the shared document is compared with its serialisation before the call",
+  "After validation, successful or not, the body must read back in full (byte-identical when skipping, failing or nothing was defaulted; otherwise the original plus exactly the defaults of the matched branches, ContentLength consistent); skipping must leave query and headers untouched; each absent parameter with a default must decode to that default and nothing else may appear; the forwarded request must validate again; a second validation must change nothing; the document must not be modified.",
+  "Trusted: the reference injection (inject in props/c13), branch exclusivity by a required constant, the verif hook for decoding forwarded parameters. Form bodies with defaults are not generated (only JSON has a registered encoder).",
+  "DESIGN.md#c13")
